@@ -13,6 +13,7 @@ GRIDBASE = {
     "geom2": ("geom", {"g": 2}),
     "geom4": ("geom", {"g": 4}),
     "geom2_local": ("geom", {"g": 2, "local": True}),
+    "geom2_global": ("geom", {"g": 2, "local": False}),      # geom2 / geom4 leave local= to the library default
     "function": ("function", {}),
     "density_lin": ("density", {"dens": "lin"}),
     "density_sq": ("density", {"dens": "sq"}),
